@@ -65,7 +65,9 @@ def run(ctx):
                     continue
                 if isinstance(recv, ast.Subscript) and async_refs_expr(ctx, recv.value, aliases) or \
                         (isinstance(recv, ast.Call) and isinstance(recv.func, ast.Attribute) and recv.func.attr == "get" and async_refs_expr(ctx, recv.func.value, aliases)) or \
-                        (isinstance(recv, ast.Name) and recv.id in ("running_task",)):
+                        (isinstance(recv, ast.Name) and any(isinstance(d, ast.Assign) and any(isinstance(t, ast.Name) and t.id == recv.id for t in d.targets)
+                                                            and any(async_refs_expr(ctx, x, aliases) for x in ast.walk(d.value) if isinstance(x, (ast.Attribute, ast.Name)))
+                                                            for d in ast.walk(f.node))):
                     def is_reg(m):
                         return any(isinstance(t, ast.Subscript) and store_field(ctx.facts, t, aliases) == "private.async_refs"
                                    and not isinstance(m.ast, ast.Delete) for t in stores_in(m))
